@@ -403,28 +403,656 @@ theorem setOrAppend_fresh {c : Ctx} {accT : List (Option String × Nat)} {acc : 
       exact Bool.noConfusion hfresh
     simp [hno]
 
+/-! ### Patterns -/
+
+/-- the bindings a pattern made, position by position: same name, a value of the binder's type. -/
+def BindsOK (c : Ctx) : TEnv → Env → Prop
+  | [], [] => True
+  | (x, t) :: bs, (y, ov) :: es => x = y ∧ (∃ v, ov = some v ∧ VT c t v) ∧ BindsOK c bs es
+  | _, _ => False
+
+theorem BindsOK.append {c : Ctx} : ∀ (b1 : TEnv) (e1 : Env) (b2 : TEnv) (e2 : Env),
+    BindsOK c b1 e1 → BindsOK c b2 e2 → BindsOK c (b1 ++ b2) (e1 ++ e2)
+  | [], [], _, _, _, h2 => h2
+  | [], _ :: _, _, _, h1, _ => by simp [BindsOK] at h1
+  | _ :: _, [], _, _, h1, _ => by simp [BindsOK] at h1
+  | (x, t) :: bs, (y, ov) :: es, b2, e2, h1, h2 => by
+    simp only [BindsOK] at h1
+    simp only [List.cons_append, BindsOK]
+    exact ⟨h1.1, h1.2.1, BindsOK.append bs es b2 e2 h1.2.2 h2⟩
+
+theorem EnvOK.pushBinds {c : Ctx} {Γ : TEnv} {ρ : Env} (h : EnvOK c Γ ρ) : ∀ (bs : TEnv) (es : Env),
+    BindsOK c bs es → EnvOK c (bs ++ Γ) (es ++ ρ)
+  | [], [], _ => h
+  | [], _ :: _, hb => by simp [BindsOK] at hb
+  | _ :: _, [], hb => by simp [BindsOK] at hb
+  | (x, t) :: bs, (y, ov) :: es, hb => by
+    simp only [BindsOK] at hb
+    obtain ⟨hxy, ⟨v, hov, hv⟩, hrest⟩ := hb
+    subst hxy hov
+    exact (EnvOK.pushBinds h bs es hrest).push hv
+
+/-- a successful match tells that the scrutinee has the narrowed type, whatever the rule. -/
+theorem narrowTo_sound {c : Ctx} {t m m' : Nat} {irref : Bool} (h : narrowTo c t m irref = some m')
+    {v : QM.RefSem.Val} (ht : VT c t v) (hm : VT c m v) : VT c m' v := by
+  unfold narrowTo at h
+  split at h
+  · simp only [Option.some.injEq] at h; subst h; exact ht
+  · simp only [Option.some.injEq] at h; subst h; exact hm
+  · split at h
+    · split at h
+      · obtain ⟨w, hw, hin⟩ := hm
+        exact ⟨w, hw, unionPair_inh h w (Or.inl hin)⟩
+      · simp at h
+    · simp only [Option.some.injEq] at h; subst h; exact hm
+
+/-- the names bound so far by the pattern are among `seen`. -/
+def AccNames (acc : Env) (seen : List String) : Prop := ∀ y, lookup acc y ≠ none → y ∈ seen
+
+theorem lookup_append_names : ∀ (bs acc : Env) (y : String), lookup (bs ++ acc) y ≠ none →
+    y ∈ bs.map (·.1) ∨ lookup acc y ≠ none
+  | [], _, _, h => Or.inr h
+  | (x, ov) :: bs, acc, y, h => by
+    simp only [List.cons_append, lookup] at h
+    by_cases hyx : y = x
+    · left; simp [hyx]
+    · simp only [hyx, if_false] at h
+      rcases lookup_append_names bs acc y h with h' | h'
+      · left; simp [h']
+      · right; exact h'
+
+theorem AccNames.extend {acc : Env} {seen : List String} (h : AccNames acc seen) {bs : Env}
+    {names : List String} (hn : bs.map (·.1) = names) : AccNames (bs ++ acc) (names ++ seen) := by
+  intro y hy
+  rcases lookup_append_names bs acc y hy with h' | h'
+  · exact List.mem_append_left _ (hn ▸ h')
+  · exact List.mem_append_right _ (h y h')
+
+def FieldsVT (c : Ctx) : List Nat → Fields → Prop
+  | [], [] => True
+  | t :: ts, (_, v) :: fs => VT c t v ∧ FieldsVT c ts fs
+  | _, _ => False
+
+theorem eqv_int_ne_none (z : Int) (v : QM.RefSem.Val) : Val.eqv (.int z) v ≠ none := by
+  cases v <;> simp [Val.eqv]
+
+theorem eqv_bin_ne_none (bs : List UInt8) (v : QM.RefSem.Val) : Val.eqv (.bin bs) v ≠ none := by
+  cases v <;> simp [Val.eqv]
+
+theorem eqv_int_true {z : Int} {v : QM.RefSem.Val} (h : Val.eqv (.int z) v = some true) : v = .int z := by
+  cases v <;> simp [Val.eqv] at h
+  rw [h]
+
+theorem eqv_bin_true {bs : List UInt8} {v : QM.RefSem.Val} (h : Val.eqv (.bin bs) v = some true) :
+    v = .bin bs := by
+  cases v <;> simp [Val.eqv] at h
+  rw [h]
+
+/-- the leaf patterns: literals and `='int` / `='bin`. `ok v` = "the run-time test succeeds". -/
+theorem leafRes_sound {c : Ctx} {t : Nat} {ty : QM.Types.Ty} {isTest : Bool} {r : PatRes}
+    (h : leafRes c t ty isTest = some r) (hty : ty = .integer ∨ ty = .binary) :
+    r.binds = [] ∧
+    (∀ v, VT c t v → (∀ i, c.T.types[i]? = some ty → VT c i v) → VT c r.matched v) ∧
+    (r.irref = true → isTest = true ∧ c.T.types[t]? = some ty) := by
+  unfold leafRes at h
+  split at h
+  case h_2 => simp at h
+  rename_i i hi
+  split at h
+  case isFalse => simp at h
+  dsimp only at h
+  split at h
+  case h_2 => simp at h
+  rename_i m hm
+  simp only [Option.some.injEq] at h
+  subst h
+  refine ⟨rfl, fun v hv hiv => narrowTo_sound hm hv (hiv i (findType_spec hi)), ?_⟩
+  intro hir
+  simp only [Bool.and_eq_true, decide_eq_true_eq] at hir
+  exact ⟨hir.1, hir.2 ▸ findType_spec hi⟩
+
+/-- labels of a value's fields, seen from both sides. -/
+theorem fieldsB_labels {g : Nat → V → Bool} : ∀ (fields : List (Option Name × Nat)) (ws : VFields),
+    fieldsB g fields ws = true → fields.map (·.1) = ws.toList.map (·.1)
+  | [], .nil, _ => rfl
+  | [], .cons _ _ _, h => by simp [fieldsB] at h
+  | _ :: _, .nil, h => by simp [fieldsB] at h
+  | p :: rest, .cons l w ws, h => by
+    simp only [fieldsB, Bool.and_eq_true, decide_eq_true_eq] at h
+    simp [VFields.toList, h.1.1, fieldsB_labels rest ws h.2]
+
+theorem toVFields_labels {nm : String → Name} : ∀ (fs : Fields) (ws : VFields), toVFields nm fs = some ws →
+    ws.toList.map (·.1) = fs.map (fun f => f.1.map nm)
+  | [], ws, h => by
+    simp only [toVFields, Option.some.injEq] at h
+    subst h; rfl
+  | (l, v) :: rest, ws, h => by
+    simp only [toVFields] at h
+    split at h
+    · rename_i w ws' hw hws
+      simp only [Option.some.injEq] at h
+      subst h
+      simp [VFields.toList, toVFields_labels rest ws' hws]
+    · simp at h
+
+theorem fieldsB_FieldsVT {c : Ctx} {f : Nat} : ∀ (fields : List (Option Name × Nat)) (ws : VFields) (fs : Fields),
+    fieldsB (inhB c.T f []) fields ws = true → toVFields c.nm fs = some ws → FieldsVT c (fields.map (·.2)) fs
+  | [], .nil, fs, _, hfs => by
+    have := toVFields_nil_inv hfs
+    subst this; simp [FieldsVT]
+  | [], .cons _ _ _, _, h, _ => by simp [fieldsB] at h
+  | _ :: _, .nil, _, h, _ => by simp [fieldsB] at h
+  | p :: rest, .cons l w ws, fs, h, hfs => by
+    simp only [fieldsB, Bool.and_eq_true, decide_eq_true_eq] at h
+    obtain ⟨l', v, rest', hfs', _, hv, hrest⟩ := toVFields_cons_inv hfs
+    subst hfs'
+    simp only [List.map_cons, FieldsVT]
+    exact ⟨⟨w, hv, f, h.1.2⟩, fieldsB_FieldsVT rest ws rest' h.2 hrest⟩
+
+theorem optmap_inj {nm : String → Name} (hinj : Function.Injective nm) {a b : Option String}
+    (h : a.map nm = b.map nm) : a = b := by
+  cases a <;> cases b <;> simp at h ⊢
+  exact hinj h
+
+theorem labels_inj {nm : String → Name} (hinj : Function.Injective nm) : ∀ (a b : List (Option String)),
+    a.map (fun l => l.map nm) = b.map (fun l => l.map nm) → a = b
+  | [], [], _ => rfl
+  | [], _ :: _, h => by simp at h
+  | _ :: _, [], h => by simp at h
+  | x :: xs, y :: ys, h => by
+    simp only [List.map_cons, List.cons.injEq] at h
+    rw [optmap_inj hinj h.1, labels_inj hinj xs ys h.2]
+
+def PatPost (c : Ctx) (t : Nat) (r : PatRes) (v : QM.RefSem.Val) (acc : Env) : MRes → Prop
+  | .unspec _ => False
+  | .failed => VT c t v → r.irref = false
+  | .matched acc' => ∃ bs, acc' = bs ++ acc ∧ bs.map (·.1) = r.binds.map (·.1) ∧
+      (VT c t v → BindsOK c r.binds bs ∧ VT c r.matched v)
+
+def FieldsPost (c : Ctx) (fts : List Nat) (binds : TEnv) (irr : Bool) (pfs : List (Option String × Pat))
+    (fs : Fields) (acc : Env) : MRes → Prop
+  | .unspec _ => False
+  | .failed => fs.map (·.1) = pfs.map (·.1) → FieldsVT c fts fs → irr = false
+  | .matched acc' => fs.map (·.1) = pfs.map (·.1) ∧ ∃ bs, acc' = bs ++ acc ∧
+      bs.map (·.1) = binds.map (·.1) ∧ (FieldsVT c fts fs → BindsOK c binds bs)
+
+theorem hasType_int (v : QM.RefSem.Val) : hasType .int v = true ↔ ∃ z, v = .int z := by
+  cases v <;> simp [hasType]
+
+theorem hasType_bin (v : QM.RefSem.Val) : hasType .bin v = true ↔ ∃ bs, v = .bin bs := by
+  cases v <;> simp [hasType]
+
+/-- a value of the scrutinee type that has the pattern's name and labels lies in THE variant of
+that shape. -/
+theorem tuple_variant_of_shape {c : Ctx} {t k : Nat} {n : Option String} {labels : List (Option String)}
+    (hok : tupScrutOk c t = true)
+    (hk : (flat1 c.T t).filter (fun j => (tupleShape c n labels j).isSome) = [k])
+    {fs : Fields} (hlab : fs.map (·.1) = labels) (hv : VT c t (.tup n fs)) : VT c k (.tup n fs) := by
+  obtain ⟨w, hw, hin⟩ := hv
+  unfold tupScrutOk at hok
+  simp only [Bool.and_eq_true] at hok
+  obtain ⟨j, hj, hjw⟩ := flat1_inh ⟨_, hok.1⟩ hin
+  have hs := List.all_eq_true.mp hok.2 j hj
+  have ⟨ws0, hfs', hw'⟩ : ∃ ws, toVFields c.nm fs = some ws ∧ w = .tup (n.map c.nm) ws := by
+    simp only [toV] at hw
+    split at hw
+    · rename_i ws hws
+      simp only [Option.some.injEq] at hw
+      exact ⟨ws, hws, hw.symm⟩
+    · simp at hw
+  unfold simpleTy at hs
+  cases hty : c.T.types[j]? with
+  | none => rw [hty] at hs; simp at hs
+  | some ty =>
+    rw [hty] at hs
+    cases ty with
+    | integer => obtain ⟨z, hz⟩ := inh_integer hty hjw; rw [hw'] at hz; simp at hz
+    | binary => obtain ⟨z, hz⟩ := inh_binary hty hjw; rw [hw'] at hz; simp at hz
+    | tuple id =>
+      cases htu : c.T.tuples[id]? with
+      | none =>
+        obtain ⟨f, hf⟩ := hjw
+        cases f with
+        | zero => simp [inhB] at hf
+        | succ f => unfold inhB at hf; rw [hty] at hf; simp only at hf; rw [htu] at hf; simp at hf
+      | some info =>
+        obtain ⟨name, ws, f, hwv, hname, hf⟩ := inh_tuple hty htu hjw
+        rw [hw'] at hwv
+        simp only [V.tup.injEq] at hwv
+        obtain ⟨hn2, hws2⟩ := hwv
+        have hshape : tupleShape c n labels j = some info := by
+          unfold tupleShape
+          rw [hty]; simp only; rw [htu]; simp only
+          have h1 : info.name = n.map c.nm := by rw [← hname, ← hn2]
+          have h2 : info.fields.map (·.1) = labels.map (fun l => l.map c.nm) := by
+            rw [fieldsB_labels _ _ hf, ← hws2, toVFields_labels fs _ hfs', ← hlab]
+            simp
+          simp [h1, h2]
+        have hmem : j ∈ (flat1 c.T t).filter (fun j => (tupleShape c n labels j).isSome) := by
+          simp [List.mem_filter, hj, hshape]
+        rw [hk] at hmem
+        simp only [List.mem_singleton] at hmem
+        subst hmem
+        exact ⟨w, hw, hjw⟩
+    | _ => simp at hs
+
+theorem acc_fresh {acc : Env} {seen : List String} (ha : AccNames acc seen) {x : String}
+    (hx : seen.contains x = false) : lookup acc x = none := by
+  cases hl : lookup acc x with
+  | none => rfl
+  | some _ =>
+    have := ha x (by rw [hl]; simp)
+    rw [List.contains_iff_mem.mpr this] at hx
+    exact Bool.noConfusion hx
+
+mutual
+  /-- **patterns of the fragment**: the run-time match never gets stuck; if it succeeds on a value
+  of the scrutinee type, the bindings have their inferred types and the value has the narrowed type;
+  if it fails on such a value, the pattern was not claimed irrefutable. -/
+  theorem pat_sound (c : Ctx) (hinj : Function.Injective c.nm) (env : Env) : ∀ (p : Pat) (seen : List String)
+      (t : Nat) (r : PatRes) (v : QM.RefSem.Val) (acc : Env), inferPat c seen t p = some r →
+      AccNames acc seen → PatPost c t r v acc (matchPat env p v acc)
+    | .bind x, seen, t, r, v, acc, h, ha => by
+      simp only [inferPat] at h
+      split at h
+      case isTrue => simp at h
+      rename_i hx
+      simp only [Option.some.injEq] at h
+      subst h
+      have hl := acc_fresh ha (by simpa using hx)
+      simp only [matchPat, bindVar, hl, PatPost]
+      exact ⟨[(x, some v)], rfl, rfl, fun hv => ⟨by simp [BindsOK, hv], hv⟩⟩
+    | .wild, seen, t, r, v, acc, h, _ => by
+      simp only [inferPat, Option.some.injEq] at h
+      subst h
+      simp only [matchPat, PatPost]
+      exact ⟨[], rfl, rfl, fun hv => ⟨by simp [BindsOK], hv⟩⟩
+    | .lit (.int z), seen, t, r, v, acc, h, _ => by
+      simp only [inferPat] at h
+      obtain ⟨hb, hm, hir⟩ := leafRes_sound h (Or.inl rfl)
+      simp only [matchPat, eqTest, litVal]
+      cases hq : Val.eqv (.int z) v with
+      | none => exact absurd hq (eqv_int_ne_none z v)
+      | some b =>
+        cases b with
+        | true =>
+          simp only [PatPost]
+          refine ⟨[], rfl, by simp [hb], fun hv => ⟨by simp [hb, BindsOK], ?_⟩⟩
+          exact hm v hv (fun i hi => by rw [eqv_int_true hq]; exact vt_int_intro hi z)
+        | false =>
+          simp only [PatPost]
+          intro _
+          cases hr : r.irref with
+          | false => rfl
+          | true => have := (hir hr).1; simp at this
+    | .lit (.bin bs), seen, t, r, v, acc, h, _ => by
+      simp only [inferPat] at h
+      obtain ⟨hb, hm, hir⟩ := leafRes_sound h (Or.inr rfl)
+      simp only [matchPat, eqTest, litVal]
+      cases hq : Val.eqv (.bin bs) v with
+      | none => exact absurd hq (eqv_bin_ne_none bs v)
+      | some b =>
+        cases b with
+        | true =>
+          simp only [PatPost]
+          refine ⟨[], rfl, by simp [hb], fun hv => ⟨by simp [hb, BindsOK], ?_⟩⟩
+          exact hm v hv (fun i hi => by rw [eqv_bin_true hq]; exact vt_bin_intro hi bs)
+        | false =>
+          simp only [PatPost]
+          intro _
+          cases hr : r.irref with
+          | false => rfl
+          | true => have := (hir hr).1; simp at this
+    | .type .int, seen, t, r, v, acc, h, _ => by
+      simp only [inferPat] at h
+      obtain ⟨hb, hm, hir⟩ := leafRes_sound h (Or.inl rfl)
+      simp only [matchPat]
+      cases hq : hasType .int v with
+      | true =>
+        obtain ⟨z, hz⟩ := (hasType_int v).mp hq
+        simp only [if_true, PatPost]
+        refine ⟨[], rfl, by simp [hb], fun hv => ⟨by simp [hb, BindsOK], ?_⟩⟩
+        exact hm v hv (fun i hi => by rw [hz]; exact vt_int_intro hi z)
+      | false =>
+        simp only [Bool.false_eq_true, if_false, PatPost]
+        intro hv
+        cases hr : r.irref with
+        | false => rfl
+        | true =>
+          obtain ⟨z, hz⟩ := vt_int_inv (hir hr).2 hv
+          rw [hz] at hq; simp [hasType] at hq
+    | .type .bin, seen, t, r, v, acc, h, _ => by
+      simp only [inferPat] at h
+      obtain ⟨hb, hm, hir⟩ := leafRes_sound h (Or.inr rfl)
+      simp only [matchPat]
+      cases hq : hasType .bin v with
+      | true =>
+        obtain ⟨z, hz⟩ := (hasType_bin v).mp hq
+        simp only [if_true, PatPost]
+        refine ⟨[], rfl, by simp [hb], fun hv => ⟨by simp [hb, BindsOK], ?_⟩⟩
+        exact hm v hv (fun i hi => by rw [hz]; exact vt_bin_intro hi z)
+      | false =>
+        simp only [Bool.false_eq_true, if_false, PatPost]
+        intro hv
+        cases hr : r.irref with
+        | false => rfl
+        | true =>
+          obtain ⟨z, hz⟩ := vt_bin_inv (hir hr).2 hv
+          rw [hz] at hq; simp [hasType] at hq
+    | .tup n pfs, seen, t, r, v, acc, h, ha => by
+      simp only [inferPat] at h
+      split at h
+      case isTrue => simp at h
+      rename_i hok
+      simp only [Bool.not_eq_true, Bool.not_eq_false'] at hok
+      split at h
+      case h_2 => simp at h
+      rename_i k hk
+      split at h
+      case h_2 => simp at h
+      rename_i info hinfo
+      split at h
+      case h_2 => simp at h
+      rename_i binds ms irr hfields
+      split at h
+      case isFalse => simp at h
+      split at h
+      case h_2 => simp at h
+      rename_i m hm
+      simp only [Option.some.injEq] at h
+      subst h
+      -- the variant's own data
+      have hkinfo : ∃ id, c.T.types[k]? = some (.tuple id) ∧ c.T.tuples[id]? = some info ∧
+          info.name = n.map c.nm ∧ info.fields.map (·.1) = (pfs.map (·.1)).map (fun l => l.map c.nm) := by
+        unfold tupleShape at hinfo
+        split at hinfo
+        · rename_i id hty
+          split at hinfo
+          · rename_i info' htu
+            split at hinfo
+            · rename_i hcond
+              simp only [Option.some.injEq] at hinfo
+              subst hinfo
+              exact ⟨id, hty, htu, hcond.1, hcond.2⟩
+            · simp at hinfo
+          · simp at hinfo
+        · simp at hinfo
+      obtain ⟨id, hkty, hktu, hkname, hklabels⟩ := hkinfo
+      cases v with
+      | tup m fs =>
+        simp only [matchPat]
+        by_cases hnm : n = m
+        · subst hnm
+          simp only [if_true]
+          have hF := patFields_sound c hinj env pfs seen (info.fields.map (·.2)) binds ms irr fs acc hfields ha
+          cases hq : matchFields env pfs fs acc with
+          | unspec why => rw [hq] at hF; exact hF
+          | matched acc' =>
+            rw [hq] at hF
+            simp only [FieldsPost] at hF
+            obtain ⟨hlab, bs, hacc, hnames, htyped⟩ := hF
+            simp only [PatPost]
+            refine ⟨bs, hacc, hnames, fun hv => ?_⟩
+            have hvk := tuple_variant_of_shape hok hk hlab hv
+            obtain ⟨w, hw, hin⟩ := hvk
+            obtain ⟨name, ws, f, hwv, _, hf⟩ := inh_tuple hkty hktu hin
+            subst hwv
+            obtain ⟨n', fs', hv', _, hfs'⟩ := toV_tup_inv hw
+            simp only [QM.RefSem.Val.tup.injEq] at hv'
+            obtain ⟨_, hf1⟩ := hv'
+            subst hf1
+            exact ⟨htyped (fieldsB_FieldsVT _ _ _ hf hfs'), narrowTo_sound hm hv ⟨_, hw, hin⟩⟩
+          | failed =>
+            rw [hq] at hF
+            simp only [FieldsPost] at hF
+            simp only [PatPost]
+            intro hv
+            cases hr : (irr && decide (t = k)) with
+            | false => rfl
+            | true =>
+              simp only [Bool.and_eq_true, decide_eq_true_eq] at hr
+              obtain ⟨hirr, htk⟩ := hr
+              subst htk
+              obtain ⟨w, hw, hin⟩ := hv
+              obtain ⟨name, ws, f, hwv, hname, hf⟩ := inh_tuple hkty hktu hin
+              subst hwv
+              obtain ⟨n', fs', hv', hn', hfs'⟩ := toV_tup_inv hw
+              simp only [QM.RefSem.Val.tup.injEq] at hv'
+              obtain ⟨hn1, hf1⟩ := hv'
+              subst hn1 hf1
+              have hlab : fs.map (·.1) = pfs.map (·.1) := by
+                apply labels_inj hinj
+                rw [← hklabels, fieldsB_labels _ _ hf, toVFields_labels fs _ hfs']
+                simp
+              have := hF hlab (fieldsB_FieldsVT _ _ _ hf hfs')
+              rw [hirr] at this
+              exact Bool.noConfusion this
+        · simp only [hnm, if_false, PatPost]
+          intro hv
+          cases hr : (irr && decide (t = k)) with
+          | false => rfl
+          | true =>
+            simp only [Bool.and_eq_true, decide_eq_true_eq] at hr
+            obtain ⟨_, htk⟩ := hr
+            subst htk
+            obtain ⟨w, hw, hin⟩ := hv
+            obtain ⟨name, ws, f, hwv, hname, hf⟩ := inh_tuple hkty hktu hin
+            subst hwv
+            obtain ⟨n', fs', hv', hn', _⟩ := toV_tup_inv hw
+            simp only [QM.RefSem.Val.tup.injEq] at hv'
+            obtain ⟨hn1, _⟩ := hv'
+            subst hn1
+            exact absurd (optmap_inj hinj (by rw [← hkname, ← hname, hn'])) hnm
+      | int z =>
+        simp only [matchPat, PatPost]
+        intro hv
+        cases hr : (irr && decide (t = k)) with
+        | false => rfl
+        | true =>
+          simp only [Bool.and_eq_true, decide_eq_true_eq] at hr
+          obtain ⟨_, htk⟩ := hr
+          subst htk
+          obtain ⟨w, hw, hin⟩ := hv
+          obtain ⟨name, ws, f, hwv, _, _⟩ := inh_tuple hkty hktu hin
+          subst hwv
+          simp [toV] at hw
+      | bin bs =>
+        simp only [matchPat, PatPost]
+        intro hv
+        cases hr : (irr && decide (t = k)) with
+        | false => rfl
+        | true =>
+          simp only [Bool.and_eq_true, decide_eq_true_eq] at hr
+          obtain ⟨_, htk⟩ := hr
+          subst htk
+          obtain ⟨w, hw, hin⟩ := hv
+          obtain ⟨name, ws, f, hwv, _, _⟩ := inh_tuple hkty hktu hin
+          subst hwv
+          simp [toV] at hw
+      | clo _ _ _ =>
+        simp only [matchPat, PatPost]
+        intro hv
+        obtain ⟨w, hw, _⟩ := hv
+        simp [toV] at hw
+      | builtin _ =>
+        simp only [matchPat, PatPost]
+        intro hv
+        obtain ⟨w, hw, _⟩ := hv
+        simp [toV] at hw
+    | .pin _, _, _, _, _, _, h, _ => by simp [inferPat] at h
+    | .part _ _, _, _, _, _, _, h, _ => by simp [inferPat] at h
+    | .star _, _, _, _, _, _, h, _ => by simp [inferPat] at h
+    | .alt _, _, _, _, _, _, h, _ => by simp [inferPat] at h
+    | .as _ _, _, _, _, _, _, h, _ => by simp [inferPat] at h
+    | .type (.tup _ _), _, _, _, _, _, h, _ => by simp [inferPat] at h
+    | .type (.part _ _), _, _, _, _, _, h, _ => by simp [inferPat] at h
+    | .type (.union _), _, _, _, _, _, h, _ => by simp [inferPat] at h
+
+  theorem patFields_sound (c : Ctx) (hinj : Function.Injective c.nm) (env : Env) :
+      ∀ (pfs : List (Option String × Pat)) (seen : List String) (fts : List Nat) (binds : TEnv)
+      (ms : List Nat) (irr : Bool) (fs : Fields) (acc : Env),
+      inferPatFields c seen fts pfs = some (binds, ms, irr) → AccNames acc seen →
+      FieldsPost c fts binds irr pfs fs acc (matchFields env pfs fs acc)
+    | [], seen, fts, binds, ms, irr, fs, acc, h, _ => by
+      cases fts with
+      | cons _ _ => simp [inferPatFields] at h
+      | nil =>
+        simp only [inferPatFields, Option.some.injEq, Prod.mk.injEq] at h
+        obtain ⟨h1, _, h3⟩ := h
+        subst h1 h3
+        cases fs with
+        | nil =>
+          simp only [matchFields, FieldsPost]
+          exact ⟨rfl, [], rfl, rfl, fun _ => by simp [BindsOK]⟩
+        | cons _ _ =>
+          simp only [matchFields, FieldsPost]
+          intro hl; simp at hl
+    | (l, p) :: ps, seen, fts, binds, ms, irr, fs, acc, h, ha => by
+      cases fts with
+      | nil => simp [inferPatFields] at h
+      | cons ft fts =>
+        simp only [inferPatFields] at h
+        split at h
+        case h_2 => simp at h
+        rename_i r hr
+        split at h
+        case h_2 => simp at h
+        rename_i bs0 ms0 irr0 hrest
+        simp only [Option.some.injEq, Prod.mk.injEq] at h
+        obtain ⟨h1, _, h3⟩ := h
+        subst h1 h3
+        cases fs with
+        | nil =>
+          simp only [matchFields, FieldsPost]
+          intro hl; simp at hl
+        | cons f fs =>
+          obtain ⟨m, v⟩ := f
+          simp only [matchFields]
+          by_cases hlm : l = m
+          · subst hlm
+            simp only [if_true]
+            have hP := pat_sound c hinj env p seen ft r v acc hr ha
+            cases hq : matchPat env p v acc with
+            | unspec why => rw [hq] at hP; exact hP
+            | failed =>
+              rw [hq] at hP
+              simp only [PatPost] at hP
+              simp only [FieldsPost]
+              intro _ hvt
+              simp only [FieldsVT] at hvt
+              simp [hP hvt.1]
+            | matched acc1 =>
+              rw [hq] at hP
+              simp only [PatPost] at hP
+              obtain ⟨bs1, hacc1, hn1, ht1⟩ := hP
+              have ha1 : AccNames acc1 (r.binds.map (·.1) ++ seen) := hacc1 ▸ ha.extend hn1
+              have hF := patFields_sound c hinj env ps _ fts bs0 ms0 irr0 fs acc1 hrest ha1
+              simp only
+              cases hq2 : matchFields env ps fs acc1 with
+              | unspec why => rw [hq2] at hF; exact hF
+              | failed =>
+                rw [hq2] at hF
+                simp only [FieldsPost] at hF ⊢
+                intro hl hvt
+                simp only [List.map_cons, List.cons.injEq] at hl
+                simp only [FieldsVT] at hvt
+                simp [hF hl.2 hvt.2]
+              | matched acc2 =>
+                rw [hq2] at hF
+                simp only [FieldsPost] at hF ⊢
+                obtain ⟨hl2, bs2, hacc2, hn2, ht2⟩ := hF
+                refine ⟨by simp [hl2], bs2 ++ bs1, by rw [hacc2, hacc1, List.append_assoc], by simp [hn1, hn2], ?_⟩
+                intro hvt
+                simp only [FieldsVT] at hvt
+                exact BindsOK.append _ _ _ _ (ht2 hvt.2) (ht1 hvt.1).1
+          · simp only [hlm, if_false, FieldsPost]
+            intro hl
+            simp only [List.map_cons, List.cons.injEq] at hl
+            exact absurd hl.1.symm hlm
+end
+
 /-! ### The induction -/
 
-/-- the rules the theorem is about: the code as it is. -/
+/-- the rules the theorem is about: the code as it is (the forward-narrowing rule may be any of the
+three: all are sound in this fragment). `nmInj`: distinct names are interned differently. -/
 structure CurrentRules (c : Ctx) : Prop where
   seq : c.cfg.seq = .accumulated
   idx : c.cfg.idx = .always
   unionArg : c.cfg.unify.unionArg = .everyVariant
+  nmInj : Function.Injective c.nm
+
+theorem vt_verdict {c : Ctx} {irref : Bool} {vt : Nat} (h : verdictTy c irref = some vt) :
+    VT c vt Val.okv ∧ (irref = false → VT c vt Val.nil) := by
+  unfold verdictTy at h
+  split at h
+  case h_2 => simp at h
+  rename_i ok hok
+  split at h
+  · rename_i hir
+    simp only [Option.some.injEq] at h
+    subst h
+    exact ⟨vt_ok hok, fun hf => by rw [hir] at hf; exact Bool.noConfusion hf⟩
+  · split at h
+    case h_2 => simp at h
+    rename_i n hn
+    obtain ⟨w, hw, hin⟩ := vt_ok hok
+    obtain ⟨w2, hw2, hin2⟩ := vt_nil hn
+    exact ⟨⟨w, hw, unionPair_inh h w (Or.inl hin)⟩, fun _ => ⟨w2, hw2, unionPair_inh h w2 (Or.inr hin2)⟩⟩
+
+/-- a pattern applied to a typed value: the verdict is typed; on success the context is respected
+and the value has the narrowed type; an irrefutable pattern succeeds. -/
+theorem doMatch_sound (c : Ctx) (hr : CurrentRules c) {Γ Γ' : TEnv} {ρ : Env} {t vt : Nat} {p : Pat}
+    {r : PatRes} (h : applyPat c Γ t p = some (vt, Γ', r)) (hE : EnvOK c Γ ρ) {v : QM.RefSem.Val}
+    (hv : VT c t v) :
+    Good (doMatch ρ p v) (fun res => VT c vt res.1 ∧
+      (res.1.isNil = false → EnvOK c Γ' res.2 ∧ VT c r.matched v) ∧ (r.irref = true → res.1.isNil = false)) := by
+  unfold applyPat at h
+  split at h
+  case h_2 => simp at h
+  rename_i r0 hp
+  split at h
+  case h_2 => simp at h
+  rename_i vt0 hvt
+  simp only [Option.some.injEq, Prod.mk.injEq] at h
+  obtain ⟨h1, h2, h3⟩ := h
+  subst h1 h2 h3
+  have hP := pat_sound c hr.nmInj ρ p [] t r0 v [] hp (fun y hy => by simp [lookup] at hy)
+  unfold doMatch
+  cases hq : matchPat ρ p v [] with
+  | unspec why => rw [hq] at hP; exact hP
+  | matched bs' =>
+    rw [hq] at hP
+    simp only [PatPost, List.append_nil] at hP
+    obtain ⟨bs, hbs, _, htyped⟩ := hP
+    subst hbs
+    obtain ⟨hb, hm⟩ := htyped hv
+    simp only [Good]
+    exact ⟨(vt_verdict hvt).1, fun _ => ⟨hE.pushBinds _ _ hb, hm⟩, fun _ => rfl⟩
+  | failed =>
+    rw [hq] at hP
+    simp only [PatPost] at hP
+    have hir := hP hv
+    simp only [Good]
+    refine ⟨(vt_verdict hvt).2 hir, fun hn => ?_, fun ht => ?_⟩
+    · simp [Val.nil, Val.isNil] at hn
+    · rw [hir] at ht; exact Bool.noConfusion ht
 
 def TermOK (c : Ctx) (n : Nat) : Prop :=
   ∀ (Γ : TEnv) (ρ : Env) (ft : Nat) (flow : QM.RefSem.Val) (t : Term) (τ : Nat) (Γ' : TEnv) (t' : Term),
     inferTerm c Γ ft t = some (τ, Γ', t') → EnvOK c Γ ρ → VT c ft flow →
     Good (evalTerm n ρ flow t') (fun r => VT c τ r.1 ∧ EnvOK c Γ' r.2)
 
+/-- chains: with `ro` the chain may end in a pattern that failed (value nil) — the context after it
+is only claimed for a non-nil value. -/
 def TermsOK (c : Ctx) (n : Nat) : Prop :=
-  ∀ (Γ : TEnv) (ρ : Env) (ft : Nat) (flow : QM.RefSem.Val) (ts : List Term) (τ : Nat) (Γ' : TEnv)
-    (ts' : List Term), inferTerms c Γ ft ts = some (τ, Γ', ts') → EnvOK c Γ ρ → VT c ft flow →
-    Good (evalTerms n ρ flow ts') (fun r => VT c τ r.1 ∧ EnvOK c Γ' r.2)
+  ∀ (ro : Bool) (Γ : TEnv) (ρ : Env) (ft : Nat) (flow : QM.RefSem.Val) (ts : List Term) (τ : Nat) (Γ' : TEnv)
+    (ts' : List Term), inferTerms c ro Γ ft ts = some (τ, Γ', ts') → EnvOK c Γ ρ → VT c ft flow →
+    Good (evalTerms n ρ flow ts') (fun r => VT c τ r.1 ∧ ((ro = false ∨ r.1.isNil = false) → EnvOK c Γ' r.2))
 
 def ChainOK (c : Ctx) (n : Nat) : Prop :=
-  ∀ (Γ : TEnv) (ρ : Env) (ft : Nat) (flow : QM.RefSem.Val) (ch : Chain) (τ : Nat) (Γ' : TEnv) (ch' : Chain),
-    inferChain c Γ ft ch = some (τ, Γ', ch') → EnvOK c Γ ρ → VT c ft flow →
-    Good (evalChain n ρ flow ch') (fun r => VT c τ r.1 ∧ EnvOK c Γ' r.2)
+  ∀ (ro : Bool) (Γ : TEnv) (ρ : Env) (ft : Nat) (flow : QM.RefSem.Val) (ch : Chain) (τ : Nat) (Γ' : TEnv)
+    (ch' : Chain), inferChain c ro Γ ft ch = some (τ, Γ', ch') → EnvOK c Γ ρ → VT c ft flow →
+    Good (evalChain n ρ flow ch') (fun r => VT c τ r.1 ∧ ((ro = false ∨ r.1.isNil = false) → EnvOK c Γ' r.2))
 
 def FieldsOK (c : Ctx) (n : Nat) : Prop :=
   ∀ (Γ : TEnv) (ρ : Env) (ft : Nat) (flow : QM.RefSem.Val) (seen : List String) (fields : List Field)
@@ -434,6 +1062,22 @@ def FieldsOK (c : Ctx) (n : Nat) : Prop :=
     FieldsRel c accT acc → (∀ l, some l ∈ accT.map (·.1) → l ∈ seen) →
     Good (evalFields n ρ flow fields' acc inhn)
       (fun r => FieldsRel c (accT ++ ftys) r.1 ∧ r.2.1 = inhn ∧ EnvOK c Γ' r.2.2)
+
+/-- a sequence either yields its last chain's value (and, if that is not nil, every chain ran: the
+context after all of them is respected), or nil because a chain whose own type is flagged nil-able
+evaluated to nil. -/
+def SeqOK (c : Ctx) (n : Nat) : Prop :=
+  ∀ (Γ : TEnv) (ρ : Env) (ft : Nat) (flow : QM.RefSem.Val) (cs : List Chain) (ts : List Nat) (Γ' : TEnv)
+    (cs' : List Chain), cs ≠ [] → inferSeqChains c Γ ft cs = some (ts, Γ', cs') → EnvOK c Γ ρ → VT c ft flow →
+    Good (evalSeq n ρ flow cs') (fun r =>
+      (∃ tl, ts.getLast? = some tl ∧ VT c tl r.1 ∧ (r.1.isNil = false → EnvOK c Γ' r.2)) ∨
+      (r.1 = Val.nil ∧ ∃ t ∈ ts, nilIn c.T (c.cfg.fuel + 2) t = true))
+
+/-- a block yields a value of one of its branches' types, or nil when it is not exhaustive. -/
+def ExprOK (c : Ctx) (n : Nat) : Prop :=
+  ∀ (Γ : TEnv) (ρ : Env) (ft : Nat) (flow : QM.RefSem.Val) (brs : List Branch) (tys : List Nat) (ex : Bool)
+    (brs' : List Branch), inferBranches c Γ ft brs = some (tys, ex, brs') → EnvOK c Γ ρ → VT c ft flow →
+    Good (evalExpr n ρ flow (.mk brs')) (fun v => (∃ t ∈ tys, VT c t v) ∨ (v = Val.nil ∧ ex = false))
 
 theorem callFlow_builtin (c : Ctx) {name : String} {sp sr : Shape} {pt rt : Nat}
     (hn : refBuiltins.contains name = true) (hs : builtinShape name = some (sp, sr))
@@ -477,11 +1121,367 @@ theorem inferCall_sound (c : Ctx) (hr : CurrentRules c) {p r a r' : Nat} (h : in
   have := guard_unify_sound_partial c.cfg.unify hr.unionArg _ _ _ c.T c.T c.T p a p' _ _ σ hpa.1 hpa.2 hu hs1 w hin
   exact hf σ _ _ p' r'' hs1 hs2 v ⟨w, hw, this⟩ n
 
+theorem Good.mono {α : Type} {r : Res α} {P Q : α → Prop} (h : Good r P) (hpq : ∀ a, P a → Q a) :
+    Good r Q := by
+  cases r with
+  | ok a => exact hpq a h
+  | fuelOut => trivial
+  | err _ => trivial
+  | unspec _ => exact h
+
+theorem isNil_eq {v : QM.RefSem.Val} (h : v.isNil = true) : v = Val.nil := by
+  cases v with
+  | tup n fs =>
+    cases n with
+    | none =>
+      cases fs with
+      | nil => rfl
+      | cons _ _ => simp [Val.isNil] at h
+    | some _ => simp [Val.isNil] at h
+  | _ => simp [Val.isNil] at h
+
+theorem toV_nil_inv {nm : String → Name} {v : QM.RefSem.Val} (h : toV nm v = some (.tup none .nil)) :
+    v.isNil = true := by
+  obtain ⟨n', fs', hv, hn, hfs⟩ := toV_tup_inv h
+  have := toVFields_nil_inv hfs
+  subst this hv
+  cases n' with
+  | none => rfl
+  | some _ => simp at hn
+
+
+theorem isNil_false_ne {nm : String → Name} {v : QM.RefSem.Val} {w : V} (hw : toV nm v = some w)
+    (hn : v.isNil = false) : w ≠ .tup none .nil := by
+  intro hw'
+  subst hw'
+  rw [toV_nil_inv hw] at hn
+  exact Bool.noConfusion hn
+
+theorem vt_nil_nilIn {c : Ctx} {t : Nat} (h : VT c t Val.nil) (n : Nat) : nilIn c.T n t = true := by
+  obtain ⟨w, hw, f, hf⟩ := h
+  simp only [Val.nil, toV, toVFields, Option.some.injEq] at hw
+  subst hw
+  exact nilIn_complete n t [] f hf
+
+/-- the type given to a sequence contains what the sequence can yield. -/
+theorem seqType_sound {c : Ctx} (hr : CurrentRules c) {ts : List Nat} {tc : Nat} (h : seqType c ts = some tc)
+    {v : QM.RefSem.Val}
+    (hv : (∃ tl, ts.getLast? = some tl ∧ VT c tl v) ∨
+      (v = Val.nil ∧ ∃ t ∈ ts, nilIn c.T (c.cfg.fuel + 2) t = true)) : VT c tc v := by
+  unfold seqType at h
+  split at h
+  case h_1 => simp at h
+  rename_i tl htl
+  split at h
+  · split at h
+    case h_2 => simp at h
+    rename_i nt hnt
+    rcases hv with ⟨tl', htl', hv⟩ | ⟨hn, _⟩
+    · rw [htl] at htl'
+      simp only [Option.some.injEq] at htl'
+      subst htl'
+      obtain ⟨w, hw, hin⟩ := hv
+      exact ⟨w, hw, unionPair_inh h w (Or.inl hin)⟩
+    · subst hn
+      obtain ⟨w, hw, hin⟩ := vt_nil hnt
+      exact ⟨w, hw, unionPair_inh h w (Or.inr hin)⟩
+  · rename_i hnot
+    simp only [Option.some.injEq] at h
+    subst h
+    rcases hv with ⟨tl', htl', hv⟩ | ⟨_, t, ht, hnl⟩
+    · rw [htl] at htl'
+      simp only [Option.some.injEq] at htl'
+      subst htl'
+      exact hv
+    · exfalso
+      apply hnot
+      rw [hr.seq]
+      refine seq_nil_sound _ _ rfl (fun _ hk => hk) ?_
+      simp only [seqYieldsNil]
+      exact List.any_eq_true.mpr ⟨true, List.mem_map.mpr ⟨t, ht, hnl⟩, rfl⟩
+
+/-! ### What a chain `=P` / `x =P` computes (for the narrowing of the scrutinee) -/
+
+theorem evalChain_paramMatch {ρ : Env} {flow : QM.RefSem.Val} {p : Pat} : ∀ (n : Nat) (res : QM.RefSem.Val × Env),
+    evalChain n ρ flow (.mk none [.mtch p]) = .ok res → doMatch ρ p flow = .ok res := by
+  intro n res h
+  rcases n with _ | _ | _ | n
+  · simp [evalChain] at h
+  · simp [evalChain, evalTerms, Res.bind] at h
+  · simp [evalChain, evalTerms, evalTerm, Res.bind] at h
+  · simp only [evalChain, evalTerms, evalTerm] at h
+    cases hq : doMatch ρ p flow with
+    | ok r =>
+      rw [hq] at h
+      obtain ⟨v, e⟩ := r
+      cases n <;> simp [Res.bind, evalTerms] at h ⊢ <;> exact h
+    | fuelOut => rw [hq] at h; simp [Res.bind] at h
+    | err _ => rw [hq] at h; simp [Res.bind] at h
+    | unspec _ => rw [hq] at h; simp [Res.bind] at h
+
+theorem evalChain_varMatch {ρ : Env} {flow sv : QM.RefSem.Val} {x : String} {p : Pat}
+    (hl : lookup ρ x = some (some sv)) (hnc : sv.isCallable = false) : ∀ (n : Nat) (res : QM.RefSem.Val × Env),
+    evalChain n ρ flow (.mk none [.access (.var x) [], .mtch p]) = .ok res → doMatch ρ p sv = .ok res := by
+  intro n res h
+  rcases n with _ | _ | _ | _ | n
+  · simp [evalChain] at h
+  · simp [evalChain, evalTerms, Res.bind] at h
+  · simp [evalChain, evalTerms, evalTerm, Res.bind] at h
+  · simp [evalChain, evalTerms, evalTerm, readVar, hl, project, hnc, Res.bind] at h
+  · simp only [evalChain, evalTerms, evalTerm, readVar, hl, project, Res.bind, hnc] at h
+    simp only [Bool.false_eq_true, if_false] at h
+    cases hq : doMatch ρ p sv with
+    | ok r =>
+      rw [hq] at h
+      obtain ⟨v, e⟩ := r
+      cases n <;> simp [Res.bind, evalTerms] at h ⊢ <;> exact h
+    | fuelOut => rw [hq] at h; simp [Res.bind] at h
+    | err _ => rw [hq] at h; simp [Res.bind] at h
+    | unspec _ => rw [hq] at h; simp [Res.bind] at h
+
+/-- `doMatch` answers a non-nil value only when the pattern matched. -/
+theorem doMatch_nonnil {ρ : Env} {p : Pat} {v : QM.RefSem.Val} {res : QM.RefSem.Val × Env}
+    (h : doMatch ρ p v = .ok res) (hn : res.1.isNil = false) :
+    ∃ bs, matchPat ρ p v [] = .matched bs ∧ res.2 = bs ++ ρ := by
+  unfold doMatch at h
+  cases hq : matchPat ρ p v [] with
+  | matched bs =>
+    rw [hq] at h
+    simp only [Res.ok.injEq] at h
+    exact ⟨bs, rfl, by rw [← h]⟩
+  | failed =>
+    rw [hq] at h
+    simp only [Res.ok.injEq] at h
+    rw [← h] at hn
+    simp [Val.nil, Val.isNil] at hn
+  | unspec _ => rw [hq] at h; simp at h
+
+/-- a successful match of a typed value: the value has the matched type, the new bindings keep
+their names. -/
+theorem matched_narrow (c : Ctx) (hr : CurrentRules c) {ρ : Env} {p : Pat} {t : Nat} {r : PatRes}
+    (hp : inferPat c [] t p = some r) {v : QM.RefSem.Val} (hv : VT c t v) {bs : Env}
+    (hm : matchPat ρ p v [] = .matched bs) : VT c r.matched v ∧ bs.map (·.1) = r.binds.map (·.1) := by
+  have hP := pat_sound c hr.nmInj ρ p [] t r v [] hp (fun y hy => by simp [lookup] at hy)
+  rw [hm] at hP
+  simp only [PatPost, List.append_nil] at hP
+  obtain ⟨bs', hbs, hn, ht⟩ := hP
+  subst hbs
+  exact ⟨(ht hv).2, hn⟩
+
+theorem EnvOK.narrow {c : Ctx} {Γ : TEnv} {ρ : Env} (h : EnvOK c Γ ρ) {x : String} {sv : QM.RefSem.Val}
+    {m : Nat} (hl : lookup ρ x = some (some sv)) (hv : VT c m sv) : EnvOK c ((x, m) :: Γ) ρ := by
+  constructor
+  · intro y t' hy
+    simp only [tlookup] at hy
+    by_cases hyx : y = x
+    · simp only [hyx, if_true, Option.some.injEq] at hy
+      subst hy hyx
+      exact ⟨sv, hl, hv⟩
+    · simp only [hyx, if_false] at hy
+      exact h.vars y t' hy
+  · intro y p r hy hf
+    simp only [tlookup] at hy
+    by_cases hyx : y = x
+    · simp [hyx] at hy
+    · simp only [hyx, if_false] at hy
+      exact h.funs y p r hy hf
+
+theorem lookup_append_fresh : ∀ (bs ρ : Env) (x : String), x ∉ bs.map (·.1) → lookup (bs ++ ρ) x = lookup ρ x
+  | [], _, _, _ => rfl
+  | (y, ov) :: bs, ρ, x, h => by
+    simp only [List.map_cons, List.mem_cons, not_or] at h
+    simp only [List.cons_append, lookup, h.1, if_false]
+    exact lookup_append_fresh bs ρ x h.2
+
+theorem inferTerms_single {c : Ctx} {ro : Bool} {Γ Γ' : TEnv} {t τ : Nat} {p : Pat} {ts : List Term}
+    (h : inferTerms c ro Γ t [.mtch p] = some (τ, Γ', ts)) : ts = [.mtch p] := by
+  simp only [inferTerms] at h
+  split at h
+  case h_2 => simp at h
+  split at h
+  case isFalse => simp at h
+  simp only [Option.some.injEq, Prod.mk.injEq] at h
+  exact h.2.2.symm
+
+theorem scrutVar_eq {ch : Chain} {x : String} {p : Pat} (h : scrutVar ch = some (x, p)) :
+    ch = .mk none [.access (.var x) [], .mtch p] := by
+  unfold scrutVar at h
+  split at h
+  · simp only [Option.some.injEq, Prod.mk.injEq] at h
+    rw [h.1, h.2]
+  · simp at h
+
+/-- `x =P` succeeded: recording `x` with the narrowed type keeps the context respected. -/
+theorem narrowVar_sound (c : Ctx) (hr : CurrentRules c) {Γ Γ1 : TEnv} {ρ ρ1 : Env} {ft t : Nat}
+    {flow v : QM.RefSem.Val} {ch ch' : Chain} {n : Nat}
+    (hch : inferChain c true Γ ft ch = some (t, Γ1, ch')) (hE : EnvOK c Γ ρ)
+    (hev : evalChain n ρ flow ch' = .ok (v, ρ1)) (hn : v.isNil = false) (hE1 : EnvOK c Γ1 ρ1) :
+    EnvOK c (narrowVar c Γ Γ1 ch) ρ1 := by
+  unfold narrowVar
+  split
+  case h_2 => exact hE1
+  rename_i x p hsv
+  split
+  case h_2 => exact hE1
+  rename_i t0 hx
+  split
+  case h_2 => exact hE1
+  rename_i r hp
+  split
+  · exact hE1
+  · rename_i hfresh
+    have hch0 := scrutVar_eq hsv
+    subst hch0
+    obtain ⟨sv, hl, hsvt⟩ := hE.vars x t0 hx
+    have hnc : sv.isCallable = false := toV_notCallable hsvt.choose_spec.1
+    have hch' : ch' = .mk none [.access (.var x) [], .mtch p] := by
+      simp only [inferChain, inferTerms, inferTerm, hx, inferAccs] at hch
+      split at hch
+      case h_2 => simp at hch
+      rename_i t2 Γ2 ts2 hts
+      split at hts
+      case h_2 => simp at hts
+      rename_i t3 Γ3 ts3 hts3
+      have := inferTerms_single hts3
+      subst this
+      simp only [Option.some.injEq, Prod.mk.injEq] at hts hch
+      rw [← hch.2.2, ← hts.2.2]
+    subst hch'
+    have hdm := evalChain_varMatch hl hnc n (v, ρ1) hev
+    obtain ⟨bs, hm, hρ1⟩ := doMatch_nonnil hdm hn
+    simp only at hρ1
+    obtain ⟨hvm, hnames⟩ := matched_narrow c hr hp hsvt hm
+    refine hE1.narrow (sv := sv) ?_ hvm
+    rw [hρ1, lookup_append_fresh bs ρ x (by rw [hnames]; simpa using hfresh)]
+    exact hl
+
+/-- a condition that starts with `=P` and did not fail: the block parameter has the narrowed type. -/
+theorem narrowParam_sound (c : Ctx) (hr : CurrentRules c) {Γ Γ1 : TEnv} {ρ ρ1 : Env} {ft : Nat}
+    {flow v : QM.RefSem.Val} {cond cond' : List Chain} {ts : List Nat} {n : Nat}
+    (hinf : inferSeqChains c Γ ft cond = some (ts, Γ1, cond')) (hflow : VT c ft flow)
+    (hev : evalSeq n ρ flow cond' = .ok (v, ρ1)) (hn : v.isNil = false) :
+    VT c (narrowParam c ft cond) flow := by
+  unfold narrowParam
+  split
+  case h_2 => exact hflow
+  rename_i p rest
+  split
+  case h_2 => exact hflow
+  rename_i r hp
+  -- the elaborated condition starts with the same chain
+  simp only [inferSeqChains, inferChain] at hinf
+  split at hinf
+  case h_2 => simp at hinf
+  rename_i t1 Γ2 ch' hch
+  split at hch
+  case h_2 => simp at hch
+  rename_i t2 Γ3 ts3 hts
+  have := inferTerms_single hts
+  subst this
+  simp only [Option.some.injEq, Prod.mk.injEq] at hch
+  have hch' : ch' = .mk none [.mtch p] := hch.2.2.symm
+  subst hch'
+  have key : ∀ (k : Nat) (v1 : QM.RefSem.Val) (e1 : Env), evalChain k ρ flow (.mk none [.mtch p]) = .ok (v1, e1) →
+      v1.isNil = false → VT c r.matched flow := by
+    intro k v1 e1 hk hv1
+    have hdm := evalChain_paramMatch k (v1, e1) hk
+    obtain ⟨bs, hm, _⟩ := doMatch_nonnil hdm hv1
+    exact (matched_narrow c hr hp hflow hm).1
+  cases n with
+  | zero =>
+    cases rest <;> simp only at hinf
+    · simp only [Option.some.injEq, Prod.mk.injEq] at hinf
+      rw [← hinf.2.2] at hev; simp [evalSeq] at hev
+    · split at hinf
+      case h_2 => simp at hinf
+      split at hinf
+      case h_2 => simp at hinf
+      simp only [Option.some.injEq, Prod.mk.injEq] at hinf
+      rw [← hinf.2.2] at hev; simp [evalSeq] at hev
+  | succ n =>
+    cases rest with
+    | nil =>
+      simp only [Option.some.injEq, Prod.mk.injEq] at hinf
+      rw [← hinf.2.2] at hev
+      simp only [evalSeq] at hev
+      cases hq : evalChain n ρ flow (.mk none [.mtch p]) with
+      | ok res =>
+        obtain ⟨v1, e1⟩ := res
+        rw [hq] at hev
+        simp only [Res.bind, Res.ok.injEq, Prod.mk.injEq] at hev
+        exact key n v1 e1 hq (hev.1 ▸ hn)
+      | fuelOut => rw [hq] at hev; simp [Res.bind] at hev
+      | err _ => rw [hq] at hev; simp [Res.bind] at hev
+      | unspec _ => rw [hq] at hev; simp [Res.bind] at hev
+    | cons c2 rest2 =>
+      simp only at hinf
+      split at hinf
+      case h_2 => simp at hinf
+      split at hinf
+      case h_2 => simp at hinf
+      rename_i ts0 Γ4 rest' hrec
+      simp only [Option.some.injEq, Prod.mk.injEq] at hinf
+      rw [← hinf.2.2] at hev
+      have hne : ∃ y ys, rest' = y :: ys := by
+        simp only [inferSeqChains] at hrec
+        split at hrec
+        case h_2 => simp at hrec
+        cases rest2 with
+        | nil =>
+          simp only [Option.some.injEq, Prod.mk.injEq] at hrec
+          exact ⟨_, _, hrec.2.2.symm⟩
+        | cons _ _ =>
+          simp only at hrec
+          split at hrec
+          case h_2 => simp at hrec
+          split at hrec
+          case h_2 => simp at hrec
+          simp only [Option.some.injEq, Prod.mk.injEq] at hrec
+          exact ⟨_, _, hrec.2.2.symm⟩
+      obtain ⟨y, ys, hys⟩ := hne
+      subst hys
+      simp only [evalSeq] at hev
+      cases hq : evalChain n ρ flow (.mk none [.mtch p]) with
+      | ok res =>
+        obtain ⟨v1, e1⟩ := res
+        rw [hq] at hev
+        simp only [Res.bind] at hev
+        cases hv1 : v1.isNil with
+        | true =>
+          rw [hv1] at hev
+          simp only [if_true, Res.ok.injEq, Prod.mk.injEq] at hev
+          rw [← hev.1] at hn
+          simp [Val.nil, Val.isNil] at hn
+        | false => exact key n v1 e1 hq hv1
+      | fuelOut => rw [hq] at hev; simp [Res.bind] at hev
+      | err _ => rw [hq] at hev; simp [Res.bind] at hev
+      | unspec _ => rw [hq] at hev; simp [Res.bind] at hev
+
+theorem inferSeqChains_nonempty (c : Ctx) {Γ Γ' : TEnv} {ft : Nat} {ch : Chain} {rest : List Chain}
+    {ts : List Nat} {cs' : List Chain} (h : inferSeqChains c Γ ft (ch :: rest) = some (ts, Γ', cs')) :
+    (∃ t ts0, ts = t :: ts0) ∧ ∃ x xs, cs' = x :: xs := by
+  simp only [inferSeqChains] at h
+  split at h
+  case h_2 => simp at h
+  cases rest with
+  | nil =>
+    simp only [Option.some.injEq, Prod.mk.injEq] at h
+    exact ⟨⟨_, _, h.1.symm⟩, ⟨_, _, h.2.2.symm⟩⟩
+  | cons _ _ =>
+    simp only at h
+    split at h
+    case h_2 => simp at h
+    split at h
+    case h_2 => simp at h
+    simp only [Option.some.injEq, Prod.mk.injEq] at h
+    exact ⟨⟨_, _, h.1.symm⟩, ⟨_, _, h.2.2.symm⟩⟩
+
 theorem infer_step (c : Ctx) (hr : CurrentRules c) (n : Nat)
-    (ih : TermOK c n ∧ TermsOK c n ∧ ChainOK c n ∧ FieldsOK c n) :
-    TermOK c (n + 1) ∧ TermsOK c (n + 1) ∧ ChainOK c (n + 1) ∧ FieldsOK c (n + 1) := by
-  obtain ⟨ihT, ihTs, ihC, ihF⟩ := ih
-  refine ⟨?_, ?_, ?_, ?_⟩
+    (ih : TermOK c n ∧ TermsOK c n ∧ ChainOK c n ∧ FieldsOK c n ∧ SeqOK c n ∧ ExprOK c n) :
+    TermOK c (n + 1) ∧ TermsOK c (n + 1) ∧ ChainOK c (n + 1) ∧ FieldsOK c (n + 1) ∧ SeqOK c (n + 1) ∧
+      ExprOK c (n + 1) := by
+  obtain ⟨ihT, ihTs, ihC, ihF, ihS, ihE⟩ := ih
+  refine ⟨?_, ?_, ?_, ?_, ?_, ?_⟩
   · -- terms
     intro Γ ρ ft flow t τ Γ' t' h hE hflow
     cases t with
@@ -627,64 +1627,180 @@ theorem infer_step (c : Ctx) (hr : CurrentRules c) (n : Nat)
           | err _ => trivial
           | unspec _ => rw [hq] at this; exact this
       | param => simp [inferTerm] at h
+    | block e =>
+      obtain ⟨brs⟩ := e
+      simp only [inferTerm] at h
+      split at h
+      case h_2 => simp at h
+      rename_i tys ex brs' hbr
+      split at h
+      case h_2 => simp at h
+      rename_i n0 hn0
+      split at h
+      case h_2 => simp at h
+      rename_i t0 hu
+      simp only [Option.some.injEq, Prod.mk.injEq] at h
+      obtain ⟨h1, h2, h3⟩ := h
+      subst h1 h2 h3
+      simp only [evalTerm]
+      refine Good.bind (ihE Γ ρ ft flow brs tys ex brs' hbr hE hflow) ?_
+      intro v hv
+      simp only [Good]
+      refine ⟨?_, hE⟩
+      rcases hv with ⟨t1, ht1, hv1⟩ | ⟨hvn, hex⟩
+      · obtain ⟨w, hw, hin⟩ := hv1
+        refine ⟨w, hw, unionMany_inh hu w t1 ?_ hin⟩
+        split
+        · exact ht1
+        · exact List.mem_append_left _ ht1
+      · subst hvn hex
+        obtain ⟨w, hw, hin⟩ := vt_nil hn0
+        exact ⟨w, hw, unionMany_inh hu w n0 (by simp) hin⟩
     | _ => simp [inferTerm] at h
   · -- term lists
-    intro Γ ρ ft flow ts τ Γ' ts' h hE hflow
+    intro ro Γ ρ ft flow ts τ Γ' ts' h hE hflow
     cases ts with
     | nil =>
       simp only [inferTerms, Option.some.injEq, Prod.mk.injEq] at h
       obtain ⟨h1, h2, h3⟩ := h
       subst h1 h2 h3
       simp only [evalTerms, Good]
-      exact ⟨hflow, hE⟩
+      exact ⟨hflow, fun _ => hE⟩
     | cons t ts =>
-      simp only [inferTerms] at h
-      split at h
-      case h_2 => simp at h
-      rename_i t1 Γ1 t' ht
-      split at h
-      case h_2 => simp at h
-      rename_i t2 Γ2 ts'' hts
-      simp only [Option.some.injEq, Prod.mk.injEq] at h
-      obtain ⟨h1, h2, h3⟩ := h
-      subst h1 h2 h3
-      simp only [evalTerms]
-      refine Good.bind (ihT Γ ρ ft flow t t1 Γ1 t' ht hE hflow) ?_
-      rintro ⟨v, ρ'⟩ ⟨hv, hE'⟩
-      exact ihTs Γ1 ρ' t1 v ts t2 Γ2 ts'' hts hE' hv
+      -- a chain that ends in a pattern
+      have hgen : ∀ (t1 : Nat) (Γ1 : TEnv) (t' : Term) (t2 : Nat) (Γ2 : TEnv) (ts'' : List Term),
+          inferTerm c Γ ft t = some (t1, Γ1, t') → inferTerms c ro Γ1 t1 ts = some (t2, Γ2, ts'') →
+          Good (evalTerms (n + 1) ρ flow (t' :: ts''))
+            (fun r => VT c t2 r.1 ∧ ((ro = false ∨ r.1.isNil = false) → EnvOK c Γ2 r.2)) := by
+        intro t1 Γ1 t' t2 Γ2 ts'' ht hts
+        simp only [evalTerms]
+        refine Good.bind (ihT Γ ρ ft flow t t1 Γ1 t' ht hE hflow) ?_
+        rintro ⟨v, ρ'⟩ ⟨hv, hE'⟩
+        exact ihTs ro Γ1 ρ' t1 v ts t2 Γ2 ts'' hts hE' hv
+      cases ts with
+      | cons t2 ts2 =>
+        simp only [inferTerms] at h
+        split at h
+        case h_2 => simp at h
+        rename_i t1 Γ1 t' ht
+        split at h
+        case h_2 => simp at h
+        rename_i t3 Γ3 ts'' hts
+        simp only [Option.some.injEq, Prod.mk.injEq] at h
+        obtain ⟨h1, h2, h3⟩ := h
+        subst h1 h2 h3
+        exact hgen t1 Γ1 t' t3 Γ3 ts'' ht hts
+      | nil =>
+        cases t with
+        | mtch p =>
+          simp only [inferTerms] at h
+          split at h
+          case h_2 => simp at h
+          rename_i vt Γ1 r hap
+          split at h
+          case isFalse => simp at h
+          rename_i hro
+          simp only [Option.some.injEq, Prod.mk.injEq] at h
+          obtain ⟨h1, h2, h3⟩ := h
+          subst h1 h2 h3
+          have hD := doMatch_sound c hr hap hE hflow
+          cases n with
+          | zero => simp [evalTerms, evalTerm, Res.bind, Good]
+          | succ n =>
+            simp only [evalTerms, evalTerm]
+            refine Good.bind hD ?_
+            rintro ⟨v, ρ'⟩ ⟨hv, hnn, hir⟩
+            simp only [Good]
+            refine ⟨hv, fun hor => (hnn ?_).1⟩
+            rcases hor with hro' | hnil
+            · subst hro'
+              simp only [Bool.false_or] at hro
+              exact hir hro
+            · exact hnil
+        | lit l =>
+          simp only [inferTerms] at h
+          split at h
+          case h_2 => simp at h
+          rename_i t1 Γ1 t' ht
+          simp only [Option.some.injEq, Prod.mk.injEq] at h
+          obtain ⟨h1, h2, h3⟩ := h
+          subst h1 h2 h3
+          exact hgen t1 Γ1 t' t1 Γ1 [] ht (by simp [inferTerms])
+        | tuple nm fs =>
+          simp only [inferTerms] at h
+          split at h
+          case h_2 => simp at h
+          rename_i t1 Γ1 t' ht
+          simp only [Option.some.injEq, Prod.mk.injEq] at h
+          obtain ⟨h1, h2, h3⟩ := h
+          subst h1 h2 h3
+          exact hgen t1 Γ1 t' t1 Γ1 [] ht (by simp [inferTerms])
+        | access src accs =>
+          simp only [inferTerms] at h
+          split at h
+          case h_2 => simp at h
+          rename_i t1 Γ1 t' ht
+          simp only [Option.some.injEq, Prod.mk.injEq] at h
+          obtain ⟨h1, h2, h3⟩ := h
+          subst h1 h2 h3
+          exact hgen t1 Γ1 t' t1 Γ1 [] ht (by simp [inferTerms])
+        | block e =>
+          simp only [inferTerms] at h
+          split at h
+          case h_2 => simp at h
+          rename_i t1 Γ1 t' ht
+          simp only [Option.some.injEq, Prod.mk.injEq] at h
+          obtain ⟨h1, h2, h3⟩ := h
+          subst h1 h2 h3
+          exact hgen t1 Γ1 t' t1 Γ1 [] ht (by simp [inferTerms])
+        | fn _ _ => simp [inferTerms, inferTerm] at h
+        | ref _ _ => simp [inferTerms, inferTerm] at h
+        | tail _ => simp [inferTerms, inferTerm] at h
+        | tailRipple => simp [inferTerms, inferTerm] at h
   · -- chains
-    intro Γ ρ ft flow ch τ Γ' ch' h hE hflow
+    intro ro Γ ρ ft flow ch τ Γ' ch' h hE hflow
     cases ch with
     | mk pat terms =>
-      simp only [inferChain] at h
-      split at h
-      case h_2 => simp at h
-      rename_i t0 Γ0 terms' hts
       cases pat with
       | none =>
+        simp only [inferChain] at h
+        split at h
+        case h_2 => simp at h
+        rename_i t0 Γ0 terms' hts
         simp only [Option.some.injEq, Prod.mk.injEq] at h
         obtain ⟨h1, h2, h3⟩ := h
         subst h1 h2 h3
         simp only [evalChain]
-        refine Good.bind (ihTs Γ ρ ft flow terms t0 Γ0 terms' hts hE hflow) ?_
-        rintro ⟨v, ρ'⟩ ⟨hv, hE'⟩
-        exact ⟨hv, hE'⟩
+        refine Good.bind (ihTs ro Γ ρ ft flow terms t0 Γ0 terms' hts hE hflow) ?_
+        rintro ⟨v, ρ'⟩ hres
+        exact hres
       | some p =>
-        cases p with
-        | bind x =>
-          simp only at h
-          split at h
-          case h_2 => simp at h
-          rename_i ok hok
-          simp only [Option.some.injEq, Prod.mk.injEq] at h
-          obtain ⟨h1, h2, h3⟩ := h
-          subst h1 h2 h3
-          simp only [evalChain]
-          refine Good.bind (ihTs Γ ρ ft flow terms t0 Γ0 terms' hts hE hflow) ?_
-          rintro ⟨v, ρ'⟩ ⟨hv, hE'⟩
-          simp only [doMatch_bind, Good]
-          exact ⟨vt_ok hok, hE'.push hv⟩
-        | _ => simp at h
+        simp only [inferChain] at h
+        split at h
+        case h_2 => simp at h
+        rename_i t0 Γ0 terms' hts
+        split at h
+        case h_2 => simp at h
+        rename_i vt Γ1 r hap
+        split at h
+        case isFalse => simp at h
+        rename_i hro
+        simp only [Option.some.injEq, Prod.mk.injEq] at h
+        obtain ⟨h1, h2, h3⟩ := h
+        subst h1 h2 h3
+        simp only [evalChain]
+        refine Good.bind (ihTs false Γ ρ ft flow terms t0 Γ0 terms' hts hE hflow) ?_
+        rintro ⟨v, ρ'⟩ ⟨hv, hE''⟩
+        have hE' := hE'' (Or.inl rfl)
+        simp only
+        refine Good.mono (doMatch_sound c hr hap hE' hv) ?_
+        rintro ⟨v2, ρ2⟩ ⟨hv2, hnn, hir⟩
+        refine ⟨hv2, fun hor => (hnn ?_).1⟩
+        rcases hor with hro' | hnil
+        · subst hro'
+          simp only [Bool.false_or] at hro
+          exact hir hro
+        · exact hnil
   · -- tuple fields
     intro Γ ρ ft flow seen fields ftys Γ' fields' accT acc inhn h hE hflow hrel hseen
     cases fields with
@@ -712,8 +1828,9 @@ theorem infer_step (c : Ctx) (hr : CurrentRules c) (n : Nat)
         obtain ⟨h1, h2, h3⟩ := h
         subst h1 h2 h3
         simp only [evalFields]
-        refine Good.bind (ihC Γ ρ ft flow ch t0 Γ1 ch' hch hE hflow) ?_
-        rintro ⟨v, ρ'⟩ ⟨hv, hE'⟩
+        refine Good.bind (ihC false Γ ρ ft flow ch t0 Γ1 ch' hch hE hflow) ?_
+        rintro ⟨v, ρ'⟩ ⟨hv, hE''⟩
+        have hE' := hE'' (Or.inl rfl)
         simp only
         have hfr : setOrAppend acc label v = acc ++ [(label, v)] :=
           setOrAppend_fresh hrel hseen label (by simpa using hfresh) v
@@ -733,85 +1850,11 @@ theorem infer_step (c : Ctx) (hr : CurrentRules c) (n : Nat)
           hrest hE' hflow hrel' hseen'
         simpa [List.append_assoc] using this
 
-/-- **every term, term list, chain and field list the fragment accepts is evaluated without getting
-stuck, to a value of the inferred type, in an environment that respects the new context** — for
-every fuel. -/
-theorem infer_terms_sound (c : Ctx) (hr : CurrentRules c) :
-    ∀ n, TermOK c n ∧ TermsOK c n ∧ ChainOK c n ∧ FieldsOK c n
-  | 0 => by
-    refine ⟨?_, ?_, ?_, ?_⟩
-    · intro _ _ _ _ _ _ _ _ _ _ _; simp [evalTerm, Good]
-    · intro _ _ _ _ _ _ _ _ _ _ _; simp [evalTerms, Good]
-    · intro _ _ _ _ _ _ _ _ _ _ _; simp [evalChain, Good]
-    · intro _ _ _ _ _ _ _ _ _ _ _ _ _ _ _ _ _; simp [evalFields, Good]
-  | n + 1 => infer_step c hr n (infer_terms_sound c hr n)
-
-/-! ### Sequences -/
-
-theorem Good.mono {α : Type} {r : Res α} {P Q : α → Prop} (h : Good r P) (hpq : ∀ a, P a → Q a) :
-    Good r Q := by
-  cases r with
-  | ok a => exact hpq a h
-  | fuelOut => trivial
-  | err _ => trivial
-  | unspec _ => exact h
-
-theorem isNil_eq {v : QM.RefSem.Val} (h : v.isNil = true) : v = Val.nil := by
-  cases v with
-  | tup n fs =>
-    cases n with
-    | none =>
-      cases fs with
-      | nil => rfl
-      | cons _ _ => simp [Val.isNil] at h
-    | some _ => simp [Val.isNil] at h
-  | _ => simp [Val.isNil] at h
-
-theorem toV_nil_inv {nm : String → Name} {v : QM.RefSem.Val} (h : toV nm v = some (.tup none .nil)) :
-    v.isNil = true := by
-  obtain ⟨n', fs', hv, hn, hfs⟩ := toV_tup_inv h
-  have := toVFields_nil_inv hfs
-  subst this hv
-  cases n' with
-  | none => rfl
-  | some _ => simp at hn
-
-theorem inferSeqChains_nonempty (c : Ctx) {Γ : TEnv} {ft : Nat} {ch : Chain} {rest : List Chain}
-    {ts : List Nat} {cs' : List Chain} (h : inferSeqChains c Γ ft (ch :: rest) = some (ts, cs')) :
-    (∃ t ts0, ts = t :: ts0) ∧ ∃ x xs, cs' = x :: xs := by
-  simp only [inferSeqChains] at h
-  split at h
-  case h_2 => simp at h
-  cases rest with
-  | nil =>
-    simp only [Option.some.injEq, Prod.mk.injEq] at h
-    exact ⟨⟨_, _, h.1.symm⟩, ⟨_, _, h.2.symm⟩⟩
-  | cons _ _ =>
-    simp only at h
-    split at h
-    case h_2 => simp at h
-    split at h
-    case h_2 => simp at h
-    simp only [Option.some.injEq, Prod.mk.injEq] at h
-    exact ⟨⟨_, _, h.1.symm⟩, ⟨_, _, h.2.symm⟩⟩
-
-/-- a sequence either yields its last chain's value, or nil because a chain whose own type is
-flagged nil-able evaluated to nil. -/
-theorem infer_seq_chains_sound (c : Ctx) (hr : CurrentRules c) : ∀ (cs : List Chain) (n : Nat) (Γ : TEnv)
-    (ρ : Env) (ft : Nat) (flow : QM.RefSem.Val) (ts : List Nat) (cs' : List Chain), cs ≠ [] →
-    inferSeqChains c Γ ft cs = some (ts, cs') → EnvOK c Γ ρ → VT c ft flow →
-    Good (evalSeq n ρ flow cs') (fun r => (∃ tl, ts.getLast? = some tl ∧ VT c tl r.1) ∨
-      (r.1 = Val.nil ∧ ∃ t ∈ ts, nilIn c.T (c.cfg.fuel + 2) t = true))
-  | [], _, _, _, _, _, _, _, hne, _, _, _ => absurd rfl hne
-  | ch :: rest, n, Γ, ρ, ft, flow, ts, cs', _, h, hE, hflow => by
-    have hC := fun n => (infer_terms_sound c hr n).2.2.1
-    cases n with
-    | zero =>
-      obtain ⟨_, x, xs, hx⟩ := inferSeqChains_nonempty c h
-      subst hx
-      simp [evalSeq, Good]
-    | succ n =>
-      have hcopy := h
+  · -- sequences
+    intro Γ ρ ft flow cs ts Γ' cs' hne h hE hflow
+    cases cs with
+    | nil => exact absurd rfl hne
+    | cons ch rest =>
       simp only [inferSeqChains] at h
       split at h
       case h_2 => simp at h
@@ -819,12 +1862,22 @@ theorem infer_seq_chains_sound (c : Ctx) (hr : CurrentRules c) : ∀ (cs : List 
       cases rest with
       | nil =>
         simp only [Option.some.injEq, Prod.mk.injEq] at h
-        obtain ⟨h1, h2⟩ := h
-        subst h1 h2
+        obtain ⟨h1, h2, h3⟩ := h
+        subst h1 h2 h3
         simp only [evalSeq]
-        refine Good.bind (hC n Γ ρ ft flow ch t Γ1 ch' hch hE hflow) ?_
-        rintro ⟨v, ρ'⟩ ⟨hv, _⟩
-        exact Or.inl ⟨t, rfl, hv⟩
+        have hC := ihC true Γ ρ ft flow ch t Γ1 ch' hch hE hflow
+        cases hq : evalChain n ρ flow ch' with
+        | ok res =>
+          obtain ⟨v, ρ'⟩ := res
+          rw [hq] at hC
+          simp only [Good] at hC
+          simp only [Res.bind, Good]
+          left
+          refine ⟨t, rfl, hC.1, fun hn => ?_⟩
+          exact narrowVar_sound c hr hch hE hq hn (hC.2 (Or.inr hn))
+        | fuelOut => simp [Res.bind, Good]
+        | err _ => simp [Res.bind, Good]
+        | unspec _ => rw [hq] at hC; exact hC
       | cons c2 rest2 =>
         simp only at h
         split at h
@@ -832,45 +1885,172 @@ theorem infer_seq_chains_sound (c : Ctx) (hr : CurrentRules c) : ∀ (cs : List 
         rename_i t' hwn
         split at h
         case h_2 => simp at h
-        rename_i ts0 rest' hrec
+        rename_i ts0 Γ3 rest' hrec
         simp only [Option.some.injEq, Prod.mk.injEq] at h
-        obtain ⟨h1, h2⟩ := h
-        subst h1 h2
+        obtain ⟨h1, h2, h3⟩ := h
+        subst h1 h2 h3
         obtain ⟨⟨t1, ts1, hts1⟩, x, xs, hx⟩ := inferSeqChains_nonempty c hrec
         subst hx
         simp only [evalSeq]
-        refine Good.bind (hC n Γ ρ ft flow ch t Γ1 ch' hch hE hflow) ?_
-        rintro ⟨v, ρ'⟩ ⟨hv, hE'⟩
-        simp only
+        have hC := ihC true Γ ρ ft flow ch t Γ1 ch' hch hE hflow
+        cases hq : evalChain n ρ flow ch' with
+        | ok res =>
+          obtain ⟨v, ρ'⟩ := res
+          rw [hq] at hC
+          simp only [Good] at hC
+          simp only [Res.bind]
+          cases hnil : v.isNil with
+          | true =>
+            simp only [if_true, Good]
+            right
+            have hvn := isNil_eq hnil
+            subst hvn
+            exact ⟨trivial, t, List.mem_cons_self .., vt_nil_nilIn hC.1 _⟩
+          | false =>
+            simp only [Bool.false_eq_true, if_false]
+            have hE2 := narrowVar_sound c hr hch hE hq hnil (hC.2 (Or.inr hnil))
+            obtain ⟨w, hw, hin⟩ := hC.1
+            have hv' : VT c t' v := ⟨w, hw, withoutNil_inh hwn w hin (isNil_false_ne hw hnil)⟩
+            refine Good.mono (ihS _ ρ' t' v (c2 :: rest2) ts0 _ (x :: xs) (by simp) hrec hE2 hv') ?_
+            rintro ⟨v2, ρ2⟩ hres
+            rcases hres with ⟨tl, htl, hvl, hel⟩ | ⟨hn2, t0, ht0, hnl⟩
+            · left
+              subst hts1
+              exact ⟨tl, by simpa [List.getLast?_cons_cons] using htl, hvl, hel⟩
+            · right
+              exact ⟨hn2, t0, List.mem_cons_of_mem _ ht0, hnl⟩
+        | fuelOut => simp [Res.bind, Good]
+        | err _ => simp [Res.bind, Good]
+        | unspec _ => rw [hq] at hC; exact hC
+  · -- blocks
+    intro Γ ρ ft flow brs tys ex brs' h hE hflow
+    cases brs with
+    | nil =>
+      simp only [inferBranches, Option.some.injEq, Prod.mk.injEq] at h
+      obtain ⟨h1, h2, h3⟩ := h
+      subst h1 h2 h3
+      simp only [evalExpr, Good]
+      exact Or.inr ⟨trivial, trivial⟩
+    | cons br rest =>
+      obtain ⟨cond, cons⟩ := br
+      simp only [inferBranches] at h
+      split at h
+      case h_2 => simp at h
+      rename_i ts Γ1 cond' hcond
+      split at h
+      case h_2 => simp at h
+      rename_i tc htc
+      split at h
+      case h_2 => simp at h
+      rename_i tb cons' hcons
+      split at h
+      case h_2 => simp at h
+      rename_i tys0 ex0 rest' hrest
+      simp only [Option.some.injEq, Prod.mk.injEq] at h
+      obtain ⟨h1, h2, h3⟩ := h
+      subst h1 h2 h3
+      have hcne : cond ≠ [] := by
+        intro hc
+        subst hc
+        simp only [inferSeqChains, Option.some.injEq, Prod.mk.injEq] at hcond
+        rw [← hcond.1] at htc
+        simp [seqType] at htc
+      simp only [evalExpr]
+      have hS := ihS Γ ρ ft flow cond ts Γ1 cond' hcne hcond hE hflow
+      cases hq : evalSeq n ρ flow cond' with
+      | ok res =>
+        obtain ⟨v, ρ'⟩ := res
+        rw [hq] at hS
+        simp only [Good] at hS
+        have hvtc : VT c tc v := seqType_sound hr htc (by
+          rcases hS with ⟨tl, htl, hvl, _⟩ | hS'
+          · exact Or.inl ⟨tl, htl, hvl⟩
+          · exact Or.inr hS')
+        simp only [Res.bind]
         cases hnil : v.isNil with
         | true =>
-          simp only [if_true, Good]
-          right
-          refine ⟨trivial, t, List.mem_cons_self .., ?_⟩
+          simp only [if_true]
           have hvn := isNil_eq hnil
           subst hvn
-          obtain ⟨w, hw, f, hf⟩ := hv
-          simp only [Val.nil, toV, toVFields, Option.some.injEq] at hw
-          subst hw
-          exact nilIn_complete _ t [] f hf
+          refine Good.mono (ihE Γ ρ ft flow rest tys0 ex0 rest' hrest hE hflow) ?_
+          intro v2 hv2
+          rcases hv2 with ⟨t0, ht0, hv0⟩ | ⟨hn2, hex⟩
+          · exact Or.inl ⟨t0, List.mem_cons_of_mem _ ht0, hv0⟩
+          · right
+            refine ⟨hn2, ?_⟩
+            unfold exhaustiveFlag
+            split
+            · simp [vt_nil_nilIn hvtc]
+            · exact hex
         | false =>
           simp only [Bool.false_eq_true, if_false]
-          obtain ⟨w, hw, hin⟩ := hv
-          have hwn' : w ≠ .tup none .nil := by
-            intro hw'
-            subst hw'
-            rw [toV_nil_inv hw] at hnil
-            exact Bool.noConfusion hnil
-          have hv' : VT c t' v := ⟨w, hw, withoutNil_inh hwn w hin hwn'⟩
-          refine Good.mono (infer_seq_chains_sound c hr (c2 :: rest2) n Γ1 ρ' t' v ts0 (x :: xs)
-            (by simp) hrec hE' hv') ?_
-          rintro ⟨v2, ρ2⟩ hres
-          rcases hres with ⟨tl, htl, hvl⟩ | ⟨hn2, t0, ht0, hnl⟩
-          · left
-            subst hts1
-            exact ⟨tl, by simpa [List.getLast?_cons_cons] using htl, hvl⟩
-          · right
-            exact ⟨hn2, t0, List.mem_cons_of_mem _ ht0, hnl⟩
+          have hE1 : EnvOK c Γ1 ρ' := by
+            rcases hS with ⟨tl, htl, hvl, hel⟩ | ⟨hvn, _⟩
+            · exact hel hnil
+            · subst hvn; simp [Val.nil, Val.isNil] at hnil
+          cases cons with
+          | none =>
+            simp only [inferCons] at hcons
+            split at hcons
+            · simp only [Option.some.injEq, Prod.mk.injEq] at hcons
+              obtain ⟨h1, h2⟩ := hcons
+              subst h1 h2
+              simp only [Good]
+              exact Or.inl ⟨tc, List.mem_cons_self .., hvtc⟩
+            · split at hcons
+              case h_2 => simp at hcons
+              rename_i tb' hwn
+              simp only [Option.some.injEq, Prod.mk.injEq] at hcons
+              obtain ⟨h1, h2⟩ := hcons
+              subst h1 h2
+              simp only [Good]
+              obtain ⟨w, hw, hin⟩ := hvtc
+              exact Or.inl ⟨tb', List.mem_cons_self .., w, hw,
+                withoutNil_inh hwn w hin (isNil_false_ne hw hnil)⟩
+          | some cs =>
+            simp only [inferCons] at hcons
+            split at hcons
+            case h_2 => simp at hcons
+            rename_i ts2 Γ2 cs' hcs
+            split at hcons
+            case h_2 => simp at hcons
+            rename_i tb' hst
+            simp only [Option.some.injEq, Prod.mk.injEq] at hcons
+            obtain ⟨h1, h2⟩ := hcons
+            subst h1 h2
+            have hcsne : cs ≠ [] := by
+              intro hc
+              subst hc
+              simp only [inferSeqChains, Option.some.injEq, Prod.mk.injEq] at hcs
+              rw [← hcs.1] at hst
+              simp [seqType] at hst
+            have hflow' : VT c (narrowParam c ft cond) flow := narrowParam_sound c hr hcond hflow hq hnil
+            simp only
+            refine Good.bind (ihS Γ1 ρ' _ flow cs ts2 Γ2 cs' hcsne hcs hE1 hflow') ?_
+            rintro ⟨w, ρ2⟩ hres
+            simp only [Good]
+            left
+            refine ⟨tb', List.mem_cons_self .., seqType_sound hr hst ?_⟩
+            rcases hres with ⟨tl, htl, hvl, _⟩ | hres'
+            · exact Or.inl ⟨tl, htl, hvl⟩
+            · exact Or.inr hres'
+      | fuelOut => simp [Res.bind, Good]
+      | err _ => simp [Res.bind, Good]
+      | unspec _ => rw [hq] at hS; exact hS
+
+/-- **every term, chain, field list, sequence and block the fragment accepts is evaluated without
+getting stuck, to a value of the inferred type** — for every fuel. -/
+theorem infer_terms_sound (c : Ctx) (hr : CurrentRules c) :
+    ∀ n, TermOK c n ∧ TermsOK c n ∧ ChainOK c n ∧ FieldsOK c n ∧ SeqOK c n ∧ ExprOK c n
+  | 0 => by
+    refine ⟨?_, ?_, ?_, ?_, ?_, ?_⟩
+    · intro _ _ _ _ _ _ _ _ _ _ _; simp [evalTerm, Good]
+    · intro _ _ _ _ _ _ _ _ _ _ _ _; simp [evalTerms, Good]
+    · intro _ _ _ _ _ _ _ _ _ _ _ _; simp [evalChain, Good]
+    · intro _ _ _ _ _ _ _ _ _ _ _ _ _ _ _ _ _; simp [evalFields, Good]
+    · intro _ _ _ _ _ _ _ _ _ _ _ _; simp [evalSeq, Good]
+    · intro _ _ _ _ _ _ _ _ _ _ _; simp [evalExpr, Good]
+  | n + 1 => infer_step c hr n (infer_terms_sound c hr n)
 
 theorem infer_seq_sound (c : Ctx) (hr : CurrentRules c) {Γ : TEnv} {ρ : Env} {ft : Nat}
     {flow : QM.RefSem.Val} {cs cs' : List Chain} {τ : Nat} (h : inferSeq c Γ ft cs = some (τ, cs'))
@@ -879,57 +2059,25 @@ theorem infer_seq_sound (c : Ctx) (hr : CurrentRules c) {Γ : TEnv} {ρ : Env} {
   simp only [inferSeq] at h
   split at h
   case h_2 => simp at h
-  rename_i ts cs'' hch
+  rename_i ts Γ1 cs'' hch
   split at h
-  case h_1 => simp at h
-  rename_i tl htl
+  case h_2 => simp at h
+  rename_i t hst
+  simp only [Option.some.injEq, Prod.mk.injEq] at h
+  obtain ⟨h1, h2⟩ := h
+  subst h1 h2
   have hne : cs ≠ [] := by
     intro hcs
     subst hcs
     simp only [inferSeqChains, Option.some.injEq, Prod.mk.injEq] at hch
-    rw [← hch.1] at htl
-    simp at htl
-  have hmain := infer_seq_chains_sound c hr cs n Γ ρ ft flow ts cs'' hne hch hE hflow
-  split at h
-  · rename_i hnilable
-    split at h
-    case h_2 => simp at h
-    rename_i nt hnt
-    split at h
-    case h_2 => simp at h
-    rename_i u hu
-    simp only [Option.some.injEq, Prod.mk.injEq] at h
-    obtain ⟨h1, h2⟩ := h
-    subst h1 h2
-    refine Good.mono hmain ?_
-    rintro ⟨v, ρ'⟩ hres
-    rcases hres with ⟨tl', htl', hv⟩ | ⟨hn, _⟩
-    · rw [htl] at htl'
-      simp only [Option.some.injEq] at htl'
-      subst htl'
-      obtain ⟨w, hw, hin⟩ := hv
-      exact ⟨w, hw, unionPair_inh hu w (Or.inl hin)⟩
-    · simp only at hn
-      subst hn
-      obtain ⟨w, hw, hin⟩ := vt_nil hnt
-      exact ⟨w, hw, unionPair_inh hu w (Or.inr hin)⟩
-  · rename_i hnot
-    simp only [Option.some.injEq, Prod.mk.injEq] at h
-    obtain ⟨h1, h2⟩ := h
-    subst h1 h2
-    refine Good.mono hmain ?_
-    rintro ⟨v, ρ'⟩ hres
-    rcases hres with ⟨tl', htl', hv⟩ | ⟨_, t, ht, hnl⟩
-    · rw [htl] at htl'
-      simp only [Option.some.injEq] at htl'
-      subst htl'
-      exact hv
-    · exfalso
-      apply hnot
-      rw [hr.seq]
-      refine seq_nil_sound _ _ rfl (fun _ hk => hk) ?_
-      simp only [seqYieldsNil]
-      exact List.any_eq_true.mpr ⟨true, List.mem_map.mpr ⟨t, ht, hnl⟩, rfl⟩
+    rw [← hch.1] at hst
+    simp [seqType] at hst
+  refine Good.mono ((infer_terms_sound c hr n).2.2.2.2.1 Γ ρ ft flow cs ts Γ1 cs'' hne hch hE hflow) ?_
+  rintro ⟨v, ρ'⟩ hres
+  refine seqType_sound hr hst ?_
+  rcases hres with ⟨tl, htl, hvl, _⟩ | hres'
+  · exact Or.inl ⟨tl, htl, hvl⟩
+  · exact Or.inr hres'
 
 /-! ### The theorem -/
 
@@ -942,7 +2090,7 @@ the fragment below, and the oracle of `harness/src/bin/c01` found it false for t
 (findings F5, F25, N1, N4, N6, N11/N13 of notes/C01.md). -/
 def TypeSoundnessStatement
     (Accepts : List Chain → Table → (String → Name) → Nat → List Chain → Prop) : Prop :=
-  ∀ cs T nm τ cs', Accepts cs T nm τ cs' →
+  ∀ cs T nm τ cs', Function.Injective nm → Accepts cs T nm τ cs' →
     ∀ n, Good (evalProgram n cs') (fun v => ∃ w, toV nm v = some w ∧ inh T [] τ w)
 
 /-- the acceptance judgement of the modelled fragment, under the rules of the code as it is. -/
@@ -958,9 +2106,9 @@ complement and dispatch machinery), patterns other than a binder, function liter
 unify/substitute guard are covered by `infer_seq_sound` (they need an environment, so they do not
 occur in a closed program). -/
 theorem infer_sound_fragment (fuel : Nat) : TypeSoundnessStatement (FragmentAccepts fuel) := by
-  intro cs T nm τ cs' h n
+  intro cs T nm τ cs' hinj h n
   let c : Ctx := ⟨{ fuel := fuel }, T, nm, []⟩
-  have hr : CurrentRules c := ⟨rfl, rfl, rfl⟩
+  have hr : CurrentRules c := ⟨rfl, rfl, rfl, hinj⟩
   have hE : EnvOK c [] [] := ⟨fun x t hx => by simp [tlookup] at hx, fun x p r _ hf => by simp [c, flookup] at hf⟩
   simp only [FragmentAccepts, inferProgram] at h
   split at h
